@@ -367,9 +367,16 @@ fn summary_strategy() -> impl Strategy<Value = SummarySpec> {
 }
 
 pub fn db_strategy() -> impl Strategy<Value = AbsDb> {
+    db_strategy_with(0.06)
+}
+
+/// `long_weight`: probability that the first table is a long one (tens of
+/// thousands of rows).  The libFuzzer target passes 0: a long table consumes
+/// more generator bytes than a fuzzer input plus its fixed tail provides.
+pub fn db_strategy_with(long_weight: f64) -> impl Strategy<Value = AbsDb> {
     let pool = (any::<bool>(), prop_oneof![3 => Just(0u8), 1 => Just(3), 1 => Just(5)], prop_oneof![3 => Just(0u8), 1 => Just(2), 1 => Just(4)], prop_oneof![3 => Just(0u8), 1 => Just(3)], 1u8..3, prop_oneof![48 => Just(0u32), 1 => Just(65_600u32)])
         .prop_map(|(long_refs, hole_every, dup_every, overcount_every, overcount_by, leading_holes)| PoolOpts { long_refs: long_refs || leading_holes > 0, hole_every, dup_every, overcount_every, overcount_by, leading_holes });
-    (0usize..PAGES.len() + 1, 1usize..5, prop::bool::weighted(0.06), pool, prop::bool::weighted(0.8), summary_strategy(), 0u8..3, prop::collection::vec(("[a-zA-Z0-9._]{1,10}", prop::collection::vec(any::<u8>(), 0..40)), 0..3))
+    (0usize..PAGES.len() + 1, 1usize..5, prop::bool::weighted(long_weight), pool, prop::bool::weighted(0.8), summary_strategy(), 0u8..3, prop::collection::vec(("[a-zA-Z0-9._]{1,10}", prop::collection::vec(any::<u8>(), 0..40)), 0..3))
         .prop_flat_map(|(pi, ntables, long, pool, with_validation, summary, ptype, streams)| {
             let id = if pi == PAGES.len() { 0 } else { PAGES[pi].id };
             let page_id = if id == 0 { 65001 } else { id };
